@@ -1,11 +1,32 @@
 package loader
 
-import "github.com/jsightapi/jsight-schema-core/notations/jschema/ischema"
+import (
+	"sort"
+
+	"github.com/jsightapi/jsight-schema-core/notations/jschema/ischema"
+)
 
 func AddUnnamedTypes(rootSchema *ischema.ISchema) {
-	for _, typ := range rootSchema.TypesList() {
-		for unnamed, unnamedTyp := range typ.Schema.TypesList() {
-			rootSchema.AddType(unnamed, unnamedTyp)
+	// The types are added to the very map they are taken from, so the work list
+	// is fixed (and ordered) before anything is added: the result must not
+	// depend on the iteration order of Go maps.
+	types := rootSchema.TypesList()
+	names := make([]string, 0, len(types))
+	for name := range types {
+		names = append(names, name)
+	}
+	sort.Strings(names)
+
+	for _, name := range names {
+		inner := types[name].Schema.TypesList()
+		innerNames := make([]string, 0, len(inner))
+		for unnamed := range inner {
+			innerNames = append(innerNames, unnamed)
+		}
+		sort.Strings(innerNames)
+
+		for _, unnamed := range innerNames {
+			rootSchema.AddType(unnamed, inner[unnamed])
 		}
 	}
 }
